@@ -1311,6 +1311,11 @@ class _Run(object):
             if attr in ("split", "splitlines", "rpartition", "partition"):
                 return AV(["list"] if attr.startswith("split") else ["tuple"], nonempty=True)
             if attr in ("startswith", "endswith"):
+                # str.startswith(bytes) / bytes.startswith(str) raise TypeError: receiver and argument must be of one kind
+                if argv and "bytes" in good and "str" in argv[0].types and not ("bytes" in argv[0].types):
+                    self.raise_("TypeError", node, "bytes.%s(str): the receiver may be bytes" % attr)
+                if argv and "str" in good and argv[0].types <= frozenset(["bytes"]):
+                    self.raise_("TypeError", node, "str.%s(bytes)" % attr)
                 return BOOL
             if attr == "encode":
                 self.raise_("UnicodeEncodeError", node, "encode")
